@@ -160,6 +160,8 @@ def make_scenario(rnd, counts, nues_choices=None, fault=None, opts=None):
             # 139 is the id of the tunnel IE that follows the bit rate IE in the transfer: its encoding contains the octets 00 8B
             ue["ambrDl"] = num([139, 1 << 32, 4000000000000, 0, 256, 35584][s_ % 6])
             ue["setupMsgNas"] = (d + u) % 2 == 1       # another NAS message in the message-level NAS-PDU IE of the setup request
+            if opts.get("fill") and u == opts["fill"] - 1:
+                ue["setupFill"] = 2048                 # this UE's setup request fills the emulator's receive buffer exactly
             if u >= 1 and d % 2 == 0:
                 # two UPFs that number their tunnels alike: the same TEID from another UPF address (a TEID is unique per address only)
                 ue["teid"] = list(ues[0]["teid"])
